@@ -287,6 +287,28 @@ pub fn run(ctx: &mut Ctx) {
             }
         }
     }
+    // every multi-line string over a small alphabet of blanks, breaks and indicators, up to a length
+    {
+        let alpha: &[char] = &['a', ' ', '\n', '\t', '#', ':', '-', '\''];
+        let maxlen = if quick { 4 } else { 6 };
+        let mut cur: Vec<String> = vec![String::new()];
+        for _ in 0..maxlen {
+            let mut next = Vec::with_capacity(cur.len() * alpha.len());
+            for p in &cur {
+                for c in alpha {
+                    let mut q = p.clone();
+                    q.push(*c);
+                    next.push(q);
+                }
+            }
+            for q in &next {
+                if q.contains('\n') {
+                    strings.push(q.clone());
+                }
+            }
+            cur = next;
+        }
+    }
     for n in [1usize, 2, 3, 5, 81, 85, 120] {
         strings.push("\n".repeat(n));
         strings.push(format!(" {}", "\n".repeat(n)));
